@@ -39,8 +39,8 @@ def run(tier):
                         "find": r.get("find"), "path_join": r.get("path_join"), "parent_path": r.get("parent_path")})
     for c in crashes:
         v = vecs[c["crash"]]
-        chk.violate({"op": c["op"], "kind": "crash", "shape": "read_outside_argument"},
-                    "%s(a=%s, b=%s) faulted on the guard page behind its argument" % (c["op"], bytes(v["a"]), bytes(v["b"])),
+        chk.violate({"op": c["op"], "kind": "crash", "shape": U.crash_shape(c)[0]},
+                    "%s(a=%s, b=%s) %s" % (c["op"], bytes(v["a"]), bytes(v["b"]), U.crash_shape(c)[1]),
                     {"mode": "pair", "op": c["op"], "a": v["a"], "b": v["b"], "actual": "SIGSEGV"})
     # random long operands, judged by TLC
     rng = random.Random(chk.seed)
@@ -78,8 +78,8 @@ def run(tier):
             recs.append({"op": "find_buf", "a": v["a"], "b": v["b"], "out": r["find_buf"], "view": "content"})
     for c in fcr:
         v = fb[c["crash"]]
-        chk.violate({"op": "find_buf", "kind": "crash", "shape": "read_outside_argument"},
-                    "find_buf(a=%s, needle=%s) faulted on the guard page or aborted" % (bytes(v["a"]), bytes(v["b"])),
+        chk.violate({"op": "find_buf", "kind": "crash", "shape": U.crash_shape(c)[0]},
+                    "find_buf(a=%s, needle=%s) %s" % (bytes(v["a"]), bytes(v["b"]), U.crash_shape(c)[1]),
                     {"mode": "findbuf", "op": "find_buf", "a": v["a"], "b": v["b"]})
     # multi-byte UTF-8 operands (tokens a / é 日 😀 and the lone Latin-1 / lead bytes on the left side)
     toks_b = [[97], [47], [195, 169], [230, 151, 165], [240, 159, 152, 128], [46]]
@@ -107,8 +107,8 @@ def run(tier):
                 recs.append({"op": op, "a": v["a"], "b": v["b"], "out": r[op], "view": "content"})
     for c in ucr:
         v = ub[c["crash"]]
-        chk.violate({"op": c["op"], "kind": "crash", "shape": "read_outside_argument"},
-                    "%s faulted on the guard page (multi-byte operands)" % c["op"], {"mode": "pair", "op": c["op"], "a": v["a"], "b": v["b"]})
+        chk.violate({"op": c["op"], "kind": "crash", "shape": U.crash_shape(c)[0]},
+                    "%s %s (multi-byte operands)" % (c["op"], U.crash_shape(c)[1]), {"mode": "pair", "op": c["op"], "a": v["a"], "b": v["b"]})
     bad = U.judge_with_tlc(chk, recs, "c11")
     chk.evaluations += len(recs)
     for k in bad:
@@ -118,8 +118,8 @@ def run(tier):
                     {"mode": "judge", "record": r})
     for c in crashes2:
         v = rv[c["crash"]]
-        chk.violate({"op": c["op"], "kind": "crash", "shape": "read_outside_argument"},
-                    "%s faulted on the guard page (long operands)" % c["op"], {"mode": "pair", "op": c["op"], "a": v["a"], "b": v["b"]})
+        chk.violate({"op": c["op"], "kind": "crash", "shape": U.crash_shape(c)[0]},
+                    "%s %s (long operands)" % (c["op"], U.crash_shape(c)[1]), {"mode": "pair", "op": c["op"], "a": v["a"], "b": v["b"]})
     for r in recs:
         nontrivial.add((r["op"], tuple(r["a"]), tuple(r["b"])))
     chk.nontrivial = len(nontrivial)
